@@ -3,13 +3,13 @@
 # worktree of /repo HEAD, the tree builds, the repository's own suite passes with it, the demonstration fails with it
 # and passes without it. On success the change is stored under /verif/seeded/<Cxx>/.
 export GOFLAGS=-mod=mod GOPROXY=off GOSUMDB=off GOTOOLCHAIN=local
-id="$1"; src=/tmp/seed/$id; out=/tmp/seed/$id-out; wt=/dev/shm/confirm-$id
+id="$1"; root=${SEEDROOT:-/tmp/seed}; src=$root/$id; out=$root/$id-out; wt=/dev/shm/confirm-$id
 git -C /repo worktree remove --force $wt 2>/dev/null; rm -rf $wt
 git -C /repo worktree add -q --detach $wt HEAD || exit 2
 trap "git -C /repo worktree remove --force $wt; rm -rf $wt" EXIT
 cd $wt
-git -C $src diff > /tmp/seed/$id-out/patch.confirm.diff
-git apply /tmp/seed/$id-out/patch.confirm.diff || { echo "$id: patch does not apply"; exit 1; }
+git -C $src diff > $out/patch.confirm.diff
+git apply $out/patch.confirm.diff || { echo "$id: patch does not apply"; exit 1; }
 go build ./... || { echo "$id: does not build"; exit 1; }
 suite=$(go test -vet=off -count=1 ./... 2>&1 | grep -E "^(FAIL|--- FAIL)" | head -3)
 if [ -n "$suite" ]; then suite2=$(go test -vet=off -count=1 ./... 2>&1 | grep -E "^(FAIL|--- FAIL)" | head -3); fi
@@ -20,14 +20,14 @@ pkgs=""; names=""
 for d in $demos; do mkdir -p $(dirname $d); cp $src/$d $d; pkgs="$pkgs ./$(dirname $d)/"; names="$names|$(grep -o '^func Test[A-Za-z0-9_]*' $src/$d | sed 's/func //' | paste -sd'|')"; done
 names="${names#|}"; pkgs=$(echo $pkgs | tr ' ' '\n' | sort -u | paste -sd' ')
 with=$(go test -vet=off -count=1 -run "^($names)\$" $pkgs 2>&1 | grep -cE "^(FAIL|--- FAIL)")
-git apply -R /tmp/seed/$id-out/patch.confirm.diff
+git apply -R $out/patch.confirm.diff
 without=$(go test -vet=off -count=1 -run "^($names)\$" $pkgs 2>&1 | grep -cE "^(FAIL|--- FAIL)")
 echo "$id: suite with change: ${suite:+flaky-once }passes; demo ($names in $pkgs) with change: $([ $with -gt 0 ] && echo FAILS || echo passes); without: $([ $without -gt 0 ] && echo FAILS || echo passes)"
 if [ $with -gt 0 ] && [ $without -eq 0 ]; then
-  mkdir -p /verif/seeded/$id
-  cp /tmp/seed/$id-out/patch.confirm.diff /verif/seeded/$id/patch.diff
-  for d in $demos; do cp $src/$d /verif/seeded/$id/$(echo $d | tr '/' '_'); done
-  [ -f $out/notes.md ] && cp $out/notes.md /verif/seeded/$id/notes.md
-  echo "$demos" > /verif/seeded/$id/demo_paths.txt
+  dst=/verif/seeded/$id${SEEDSUFFIX:-}; mkdir -p $dst
+  cp $out/patch.confirm.diff $dst/patch.diff
+  for d in $demos; do cp $src/$d $dst/$(echo $d | tr '/' '_'); done
+  [ -f $out/notes.md ] && cp $out/notes.md $dst/notes.md
+  echo "$demos" > $dst/demo_paths.txt
   echo "$id: stored"
 fi
